@@ -7,7 +7,7 @@ use serde_json::Value;
 /// edit and commits (commit resolves array conflicts automatically). params: [k orders, symbolic values?]
 pub fn commit_with_array_conflict() {
     let k = sym::param(0) as usize;
-    let symbolic = sym::param(1) != 0;
+    let symbolic = sym::param(1) as usize;
     let (mut a, b) = base_pair(any_doc(k, symbolic));
     a.m.update(any_doc(k, symbolic)).expect("update a");
     let ca = a.m.commit(None).expect("commit a");
